@@ -488,7 +488,17 @@ pub struct Hdr {
 }
 
 pub fn decode_header(buf: &[u8]) -> Option<Hdr> {
-    let VintDec::Ok(id, id_len) = id_decode(buf) else { return None };
+    decode_header_opt(buf, false)
+}
+
+/// `zero_id`: accept a 0x00 byte as the one-byte malformed id 0 (what the tolerant reader is documented to do:
+/// "assume any incoming tag id is valid")
+pub fn decode_header_opt(buf: &[u8], zero_id: bool) -> Option<Hdr> {
+    let (id, id_len) = match id_decode(buf) {
+        VintDec::Ok(id, l) => (id, l),
+        VintDec::Invalid if zero_id => (0, 1),
+        _ => return None,
+    };
     let VintDec::Ok(sz, size_len) = vint_decode(&buf[id_len..]) else { return None };
     let unknown = (sz as u128) == (1u128 << (7 * size_len)) - 1;
     Some(Hdr { id, id_len, size: if unknown { None } else { Some(sz) }, size_len })
